@@ -6,7 +6,7 @@ use crate::bridge::*;
 use crate::gen;
 use crate::oracle::*;
 use crate::runner::*;
-use crate::sched::{Sched, Strategy as Sch};
+use crate::sched::{MultiSched, Strategy as Sch};
 use chess::alpha_beta_searcher::{alpha_beta_search, SearchContext};
 use chess::move_generator::MoveGenerator;
 use chess::verif_hooks::{set_search_observer, SearchObserver};
@@ -41,32 +41,58 @@ fn strategy_strategy() -> BoxedStrategy<Sch> {
     .boxed()
 }
 
-fn sched() -> Arc<Sched> {
-    static S: OnceLock<Arc<Sched>> = OnceLock::new();
+const SLOTS: usize = 8;
+
+fn multi() -> Arc<MultiSched> {
+    static S: OnceLock<Arc<MultiSched>> = OnceLock::new();
     S.get_or_init(|| {
-        let s = Arc::new(Sched::new());
+        let s = Arc::new(MultiSched::new(SLOTS));
         set_search_observer(Some(s.clone() as Arc<dyn SearchObserver>));
         s
     })
     .clone()
 }
 
-fn ctl_pool() -> Arc<rayon::ThreadPool> {
-    static P: OnceLock<Arc<rayon::ThreadPool>> = OnceLock::new();
+fn ctl_pool(k: usize) -> Arc<rayon::ThreadPool> {
+    static P: OnceLock<Vec<Arc<rayon::ThreadPool>>> = OnceLock::new();
     P.get_or_init(|| {
-        Arc::new(
-            rayon::ThreadPoolBuilder::new()
-                .num_threads(64)
-                .thread_name(|i| format!("ctl-{}", i))
-                .build()
-                .expect("controlled pool"),
-        )
-    })
-    .clone()
+        (0..SLOTS)
+            .map(|k| {
+                Arc::new(
+                    rayon::ThreadPoolBuilder::new()
+                        .num_threads(64)
+                        .thread_name(move |i| format!("ctl{}-{}", k, i))
+                        .build()
+                        .expect("controlled pool"),
+                )
+            })
+            .collect()
+    })[k]
+        .clone()
 }
 
-/// Controlled runs use the process-wide observer: one at a time.
-static CONTROL: Mutex<()> = Mutex::new(());
+/// Each controlled run borrows one (scheduler, pool) slot; SLOTS runs can proceed at once.
+static FREE_SLOTS: Mutex<Vec<usize>> = Mutex::new(Vec::new());
+static SLOTS_INIT: std::sync::Once = std::sync::Once::new();
+static SLOT_CV: std::sync::Condvar = std::sync::Condvar::new();
+
+fn acquire_slot() -> usize {
+    SLOTS_INIT.call_once(|| {
+        *FREE_SLOTS.lock().unwrap() = (0..SLOTS).collect();
+    });
+    let mut free = FREE_SLOTS.lock().unwrap_or_else(|e| e.into_inner());
+    loop {
+        if let Some(k) = free.pop() {
+            return k;
+        }
+        free = SLOT_CV.wait(free).unwrap_or_else(|e| e.into_inner());
+    }
+}
+
+fn release_slot(k: usize) {
+    FREE_SLOTS.lock().unwrap_or_else(|e| e.into_inner()).push(k);
+    SLOT_CV.notify_one();
+}
 
 struct Prepared {
     board: chess::board::Board,
@@ -107,7 +133,7 @@ impl Prop for C09Schedules {
         "C09/schedules"
     }
     fn shards(&self) -> usize {
-        4
+        8
     }
     fn max_shrink_iters(&self) -> u32 {
         120
@@ -156,7 +182,7 @@ impl Prop for C09Schedules {
             .boxed()
     }
     fn cases(&self, tier: Tier) -> u32 {
-        tier.pick(80, 1_500)
+        tier.pick(160, 3_000)
     }
     fn test(&self, c: &SchedCase, st: &mut Stats) -> TestResult {
         let mut pos = Pos::from_fen(&c.fen).map_err(Failure::new)?;
@@ -167,7 +193,7 @@ impl Prop for C09Schedules {
             5..=8 => c.depth.min(3),
             _ => 2,
         };
-        let s = sched();
+        let ms = multi();
         // baseline: 1 thread, in order
         let (mut base, root) = match prepare(&pos, depth, c.prior) {
             Some(x) => x,
@@ -211,7 +237,6 @@ impl Prop for C09Schedules {
         }
 
         // controlled schedules
-        let p64 = ctl_pool();
         let mut work: Vec<Sch> = c.strategies.clone();
         let first_perm: Option<Vec<u16>> = c.strategies.iter().find_map(|s| match s {
             Sch::Permuted(p) => Some(p.clone()),
@@ -228,11 +253,13 @@ impl Prop for C09Schedules {
             let strat = &work[wi].clone();
             wi += 1;
             let (mut run, _) = prepare(&pos, depth, c.prior).ok_or_else(|| Failure::new("prepare not reproducible"))?;
-            let _guard = CONTROL.lock().unwrap_or_else(|e| e.into_inner());
+            let slot = acquire_slot();
+            let s = ms.slots[slot].clone();
+            let p64 = ctl_pool(slot);
             s.arm(strat.clone());
             let r = no_panic(|| p64.install(|| alpha_beta_search(&mut run.ctx, &mut run.board, &mut run.gen)));
             let log = s.disarm();
-            drop(_guard);
+            release_slot(slot);
             st.count("controlled_runs", 1);
             st.evaluations += 1; // every controlled schedule is an execution of its own
             if log.stalled {
